@@ -71,6 +71,13 @@ def read_closure(ctx: Ctx) -> Dict[str, Func]:
 # ------------------------------------------------------------------------------------------ R05.1
 def _loop_var(test: ast.AST) -> Optional[Tuple[str, str]]:
     """(name, direction) for `x > 0`, `x < bound`, `x.attr < bound`."""
+    if isinstance(test, ast.BoolOp) and isinstance(test.op, ast.And):
+        # a conjunction ends as soon as one conjunct fails: any bounded conjunct is a variant
+        for v in test.values:
+            lv = _loop_var(v)
+            if lv is not None:
+                return lv
+        return None
     if isinstance(test, ast.Compare) and len(test.ops) == 1:
         l, r, op = test.left, test.comparators[0], test.ops[0]
         if isinstance(op, (ast.Gt, ast.GtE)) and isinstance(r, ast.Constant) and r.value == 0:
